@@ -247,6 +247,12 @@ func ruleFilterWriterDict(c *Ctx, r *Report, prefix string) {
 			}
 		}
 	}
+	if bad != "" || nMax != 1 {
+		// the same decided over paths: what NewWriter2 sees is the larger of the two on every path
+		if windowIsMaxByPaths(c, fn, "NewWriter2") {
+			bad, nMax = "", 1
+		}
+	}
 	r.Check(bad == "" && nMax == 1, rule, FnName(fn), c.Pos(fn.Pos()), "encoder dictionary = max(WriterConfig.DictCap, declared size) and nothing else", bad)
 }
 
